@@ -454,7 +454,9 @@ func runC16(r *hx.Run, replay string) {
 			case 4:
 				return n + `{job!="b"}`
 			}
-			switch rr.Intn(8) {
+			switch rr.Intn(9) {
+			case 8:
+				return n + `{cluster="x"}` // a label no series ever had: step 3 says so, and oracle (C) checks that it is true
 			case 0:
 				return n + `{cluster=""}` // no series has a cluster label: these two select what the bare name selects
 			case 1:
